@@ -42,6 +42,7 @@ import (
 
 	"reservoir/config"
 	"reservoir/proxy"
+	"verifharness/e2elib"
 	"verifharness/emit"
 )
 
@@ -852,7 +853,7 @@ func readableExchange(q *reqSpec, transport int, ob obs, ups []upRec, kind strin
 func main() {
 	flag.Parse()
 	thorough = *flagTier == "thorough"
-	slog.SetDefault(slog.New(slog.NewTextHandler(io.Discard, nil)))
+	slog.SetDefault(slog.New(e2elib.DebugDiscard{})) // every level enabled, nothing written
 	if err := os.MkdirAll(*flagOut, 0755); err != nil {
 		panic(err)
 	}
